@@ -239,13 +239,72 @@ def ketDicke (klist : List Nat) (x : Nat) : SAmp :=
 section wtype
 variable {α : Type} [Div α] [Zero α]
 
-/-- `coeff/‖coeff‖` written to the indices `2^k`; `nrm` is `np.linalg.norm(coeff)`, computed by the caller. -/
+/-- `coeff/‖coeff‖` written to the indices `2^k`; `nrm` is `np.linalg.norm(coeff)`, computed by the caller.
+(`x` is a power of two iff `x = 2^(log2 x)`.) -/
 def ketWtype (coeff : List α) (nrm : α) (x : Nat) : α :=
-  match (List.range coeff.length).find? (fun k => x == 2 ^ k) with
-  | some k => coeff.getD k 0 / nrm
-  | none => 0
+  if x = 2 ^ x.log2 ∧ x.log2 < coeff.length then coeff.getD x.log2 0 / nrm else 0
 
 end wtype
+
+/-! ### closed-form geometric measures of Dicke and W-type states (`state/_internal.py:42-67, 108-118`) -/
+
+/-- `C(n,k)` by the multiplicative formula (every intermediate division is exact) -/
+def binomN (n k : Nat) : Nat := (List.range k).foldl (fun acc i => acc * (n - i) / (i + 1)) 1
+
+/-- `get_qubit_dicke_state_GME(n, k) = 1 - C(n,k) (k/n)^k ((n-k)/n)^(n-k)` over the rationals (`0^0 = 1` as in Python) -/
+def dickeGME (n k : Nat) : Rat :=
+  1 - (binomN n k : Rat) * ((k : Rat) / (n : Rat)) ^ k * (((n - k : Nat) : Rat) / (n : Rat)) ^ (n - k)
+
+section wtypegme
+variable {α : Type} [Add α] [Sub α] [Mul α] [Div α] [Zero α] [One α] [LT α] [DecidableRel (α := α) (· < ·)]
+
+/-- `max(x, y, z)` as Python evaluates it (first maximal element) -/
+def max3 (x y z : α) : α := let m := if x < y then y else x; if m < z then z else m
+
+/-- `get_Wtype_state_GME(a, b, c)` after its normalisation assert; `c16 = 16`, `two = 2`, `q34 = 3/4`, `four = 4` -/
+def wtypeGME (c16 two q34 four : α) (a b c : α) : α :=
+  let r1 := b * b + c * c - a * a
+  let r2 := a * a + c * c - b * b
+  let r3 := a * a + b * b - c * c
+  if 0 < r1 ∧ 0 < r2 ∧ 0 < r3 then
+    let w := two * a * b
+    let t := (c16 * a * a * b * b * c * c - w * w + r3 * r3) / (w * w - r3 * r3)
+    q34 - t / four
+  else 1 - max3 (a * a) (b * b) (c * c)
+
+end wtypegme
+
+/-! ### element-probing measurements (`unique_determine/_internal.py:210-254`), entries as Gaussian integers
+
+`eq8`: `2·dim` Hermitian operators `1, E₀₀, E₀ₖ+Eₖ₀, -iE₀ₖ+iEₖ₀`.  `eq9` (even `dim ≥ 4`): four orthonormal bases `B1..B4`
+whose rows are `(|p⟩ ± u|q⟩)/√2`, `u ∈ {1, i}`; the model gives `√2 ×` the entry. -/
+
+/-- `get_element_probing_POVM('eq8', dim)[m, r, c]` -/
+def eprobe8 (dim m r c : Nat) : GInt :=
+  if m = 0 then (if r = c then 1 else 0)
+  else if m = 1 then (if r = 0 ∧ c = 0 then 1 else 0)
+  else if m ≤ dim then                     -- m = k+1, k = 1..dim-1: E_{0k} + E_{k0}
+    (if (r = 0 ∧ c = m - 1) ∨ (r = m - 1 ∧ c = 0) then 1 else 0)
+  else                                       -- m = k+dim: -i E_{0k} + i E_{k0}
+    (if r = 0 ∧ c = m - dim then ⟨0, -1⟩ else if r = m - dim ∧ c = 0 then ⟨0, 1⟩ else 0)
+
+/-- `√2 ×` entry `(i, c)` of basis `B_{b+1}` (`b = 0..3`) of `get_element_probing_POVM('eq9', dim)` -/
+def eprobe9 (b dim i c : Nat) : GInt :=
+  let p := if b % 2 = 0 then (i / 2) * 2 else (i / 2) * 2 + 1
+  let q := if b % 2 = 0 then (i / 2) * 2 + 1 else ((i / 2) * 2 + 2) % dim
+  let u : GInt := if b < 2 then ⟨1, 0⟩ else ⟨0, 1⟩
+  let v : GInt := if i % 2 = 0 then u else -u
+  -- the second assignment of the source overwrites the first when both hit the same column (never for even dim ≥ 2)
+  if c = q then v else if c = p then 1 else 0
+
+/-- exact test: the rows of `B_{b+1}` are orthonormal (`Σ_c conj(B i c) B j c = 2 δ_ij` for the scaled entries) and complete
+(`Σ_i B i c conj(B i c') = 2 δ_cc'`), so `Σ_i |b_i⟩⟨b_i| = 1` -/
+def eprobe9Unitary (b dim : Nat) : Bool :=
+  let idx := List.range dim
+  (idx.all fun i => idx.all fun j =>
+    (idx.foldl (fun acc c => acc + conj (eprobe9 b dim i c) * eprobe9 b dim j c) (0 : GInt)) == (if i = j then ⟨2, 0⟩ else 0)) &&
+  (idx.all fun c => idx.all fun c' =>
+    (idx.foldl (fun acc i => acc + eprobe9 b dim i c * conj (eprobe9 b dim i c')) (0 : GInt)) == (if c = c' then ⟨2, 0⟩ else 0))
 
 /-! ### unextendible product bases (`entangle/upb.py`) -/
 
